@@ -11,6 +11,9 @@ CHECKS = {
 CHECKS["C15"] = ("exploration", "runtime round-trip / random-access / bytes round-trip monitors over a directed codec x input-class matrix and random sequences",
   "Every codec (dictionary, delta signed/unsigned, bit-packing at every width 0..=64, delta+bit-packing, run-length signed/unsigned, bit vector algebra, codec selector, Elias-Fano, rank/select, wavelet tree, adjacency compaction/freeze, compressed property columns) is run on a directed matrix of input shapes x boundary lengths and on random sequences; the oracle is the input sequence itself (decode, get(i), iterator, from_bytes(to_bytes)). Held = every observed round trip was exact.",
   "Inputs respect documented preconditions (sorted where required). Sequence lengths <= 1025 in the matrix; values and lengths beyond the classes are sampled only. One build profile per run (dev by default; VH_PROFILE=release for the other).", "DESIGN.md §4 C15")
+CHECKS["C14"] = ("exploration", "after-every-operation cross-accessor invariant walker against a reference model graph",
+  "Random mutation histories on the real LpgStore (all mutating calls, mixed value types, index create/drop, statistics, zone-map rebuild, with/without backward adjacency, hub histories crossing the 64/256 adjacency thresholds); after every operation every accessor is compared with a plain reference model, zone-map pruning is probed for soundness, GrafeoDB::validate() must report exactly the dangling references. Held = all accessors agreed with the model at every prefix of every history run.",
+  "Single-threaded, epoch 0 (no transactions): concurrency is C20's, MVCC visibility is C01's. Range finder and `<>` pruning are judged with same-kind comparison only (mixed Int/Float is C10's differential).", "DESIGN.md §4 C14")
 NOT_YET = {}
 
 def main():
